@@ -4,5 +4,7 @@ OptNamesDef == {<<"a">>, <<"b">>, <<"a", "b">>, <<"b", "a">>}
 ArgNamesDef == {<<"X">>, <<"Y">>, <<"X", "1", "_">>, <<"x">>, <<"1", "X">>, <<"O", "P", "T", "I", "O", "N", "S">>,
                 <<"X", "-", "Y">>, <<"X", "y">>, <<"_", "X">>, <<"X", "_", "Y">>,
                 \* "~" stands for a character outside ASCII (the harness sends U+0142, whose low byte is 'B'): only ASCII goes through TLC
-                <<"X", "~">>, <<"~">>}
+                <<"X", "~">>, <<"~">>,
+                \* "!" stands for a line feed, "?" for a carriage return (neither is a character of an upper-case identifier)
+                <<"X", "!">>, <<"?", "X">>}
 =============================================================================
